@@ -124,6 +124,10 @@ def classify_function(ctx: Ctx, rep: Report, fn: FuncInfo, tabs):
             last = name.split(".")[-1]
             if ct.funcs or ct.ctor is not None:
                 continue      # package callee: analysed on its own
+            if name == "int" and n.args and _mentions_float_read(fn, n.args[0]):
+                # int(nan) raises ValueError, int(+-inf) raises OverflowError: 0x7F800000 / 0xFF800000 are register contents like any other
+                rep.violation("C11.R1", "int-of-float:%s" % fn.short, where, "%s: int() of an unpacked float raises OverflowError for the register contents +inf / -inf (0x7F800000, 0xFF800000): not a ValueError, the whole bulk read fails" % fn.short)
+                continue
             if name in TOTAL or last in TOTAL_METHODS or name.startswith("logger."):
                 continue
             if last in VALUEERROR_ONLY or name in VALUEERROR_ONLY:
